@@ -552,4 +552,55 @@ def judgeMutation (m : Mutation F) : List String :=
   (if jsonEq m.before m.after then [] else ["original-datainfo-changed"]) ++
   (if m.probes.all (fun p => outcomeEq p.original p.derived) then [] else ["original-behaviour-changed"])
 
+/-! ## histories on one object: the description is the one of the datatype as it is NOW
+
+"Exporting a datatype's datainfo … and rebuilding it yields an equivalent type" is said of a datatype, not of the
+moment at which it is asked: after any history (descriptions asked for, properties and the main unit changed on the
+object or on any of its members, descriptions asked for again) the type rebuilt from the datainfo exported NOW, and a
+copy made NOW, are equivalent to the object as it is now (`judgeRebuilt` on the observations made at the end), and the
+datainfo depends on nothing but the state of the object: a second object built by the constructors from the state read
+off the first (its *twin*, never asked for a description before) exports the same datainfo. -/
+
+/-- what the harness observed at the end of a history: the rebuild / copy made then, and the datainfo of the twin -/
+structure Aged (F : Type) where
+  derived : Derived F
+  twin : Option (JVal F)            -- `none`: the state read off the object could not be rebuilt by the constructors
+
+/-- `t` is the tree at the END of the history -/
+def judgeHistory (t : DInfo F) (a : Aged F) : List String :=
+  judgeRebuilt t a.derived ++
+  (match a.twin with
+   | some j => if jsonEq a.derived.datainfo j then [] else ["stale"]
+   | none => [])
+
+/-! ## the users of the check: the verdict in the direction in which the values flow
+
+`ProxyModule._check_descriptive_data` is a compatibility check between a parameter of the proxy and the parameter of
+the remote module it stands for.  Which of the two datatypes is "the first" follows from where the values come from:
+every parameter is read and updated (a value valid remotely arrives at the proxy: remote → proxy); the proxy sends a
+value only for a parameter which is writable ON ITS OWN SIDE (`proxy_class` makes a `write_<name>` for those only, and a
+change request for a read-only parameter never reaches a write method): proxy → remote.  The check "passes" in a
+direction when it logs no complaint about the datatypes that covers this direction: 'has an incompatible datatype'
+covers the direction checked first, 'is not fully compatible' the reading direction of a writable parameter. -/
+
+/-- what the harness observed of one parameter: the complaints logged, values of the proxy's type through the real
+`validate` of the remote type and values of the remote type through the real `validate` of the proxy's -/
+structure ProxyObs (F : Type) where
+  incompatible : Bool
+  notFully : Bool
+  toRemote : List (Witness F)
+  toProxy : List (Witness F)
+
+/-- clauses broken by the check on one parameter; `writable`: the parameter of the PROXY is writable.
+`sound-write`: no 'incompatible' complaint although a value the proxy may send is refused remotely;
+`sound-read`: no complaint at all although a value the remote module may deliver is refused by the proxy;
+`complete-write` / `complete-read`: a complaint although the value sets are nested in the direction(s) of the flow. -/
+def judgeProxyParam (writable : Bool) (own remote : CType F) (o : ProxyObs F) : List String :=
+  let quiet := !o.incompatible && !o.notFully
+  (if writable && !o.incompatible && o.toRemote.any (fun w => inSetCB own w.value && !w.accepted) then ["sound-write"] else []) ++
+  (if quiet && o.toProxy.any (fun w => inSetCB remote w.value && !w.accepted) then ["sound-read"] else []) ++
+  (if writable && o.incompatible && nestedCB own remote then ["complete-write"] else []) ++
+  (if !writable && !quiet && nestedCB remote own then ["complete-read"] else []) ++
+  (if writable && o.notFully && nestedCB own remote && nestedCB remote own then ["complete-read"] else [])
+
 end Frappy.Spec.C03
